@@ -73,16 +73,20 @@ fn next_multi(idx: &mut [usize], n: usize) -> bool {
     true
 }
 
-/// next k-tuple over 0..n (odometer); false when exhausted
-fn next_tuple(idx: &mut [usize], n: usize) -> bool {
+/// next k-tuple over 0..n (odometer), the first component advancing by `step0` (one thread's share); false when exhausted
+fn next_tuple(idx: &mut [usize], n: usize, step0: usize) -> bool {
     let mut i = idx.len();
-    while i > 0 {
+    while i > 1 {
         if idx[i - 1] + 1 < n {
             idx[i - 1] += 1;
             return true;
         }
         idx[i - 1] = 0;
         i -= 1;
+    }
+    if idx[0] + step0 < n {
+        idx[0] += step0;
+        return true;
     }
     false
 }
@@ -116,14 +120,28 @@ pub fn sweep(args: &[String]) {
     let n = alpha.len();
     let bad_total = Arc::new(AtomicU64::new(0));
     // per thread: cases done (u64::MAX once finished) and the case being run
-    let states: Vec<Arc<(AtomicU64, Mutex<String>)>> =
-        (0..threads).map(|_| Arc::new((AtomicU64::new(0), Mutex::new(String::new())))).collect();
+    // (third field: the pair being run on the fast path, encoded, 0 = none)
+    let states: Vec<Arc<(AtomicU64, Mutex<String>, AtomicU64)>> =
+        (0..threads).map(|_| Arc::new((AtomicU64::new(0), Mutex::new(String::new()), AtomicU64::new(0)))).collect();
+    let fast_hrkey = op == "hrkey" && alphabet == "u16_ordered" && k == 2 && expect == "1 1 1" && order == 0;
     let mut handles = Vec::new();
     for t in 0..threads {
         let (op, expect, alpha, expect_blank) = (op.clone(), expect.clone(), alpha.clone(), expect_blank.clone());
         let (bad_total, state) = (bad_total.clone(), states[t as usize].clone());
         handles.push(std::thread::spawn(move || {
-            let mut idx: Vec<usize> = if multi { vec![0; k] } else { (0..k).collect() };
+            let mut idx: Vec<usize> = if multi || ordered { vec![0; k] } else { (0..k).collect() };
+            if ordered {
+                // ordered tuples are split between the threads by their first component
+                idx[0] = t as usize;
+                if idx[0] >= n {
+                    state.0.store(u64::MAX, Ordering::Relaxed);
+                    return (0, Vec::new());
+                }
+            }
+            // the all-pairs fast path converts each 16-bit value once (HandRank::from is exhaustively checked by C06)
+            let ranks: Vec<ckc_rs::hand_rank::HandRank> =
+                if fast_hrkey { (0..=65535u16).map(ckc_rs::hand_rank::HandRank::from).collect() } else { Vec::new() };
+            let linear = |idx: &[usize]| idx.iter().fold(0u64, |a, i| a * n as u64 + *i as u64);
             let mut c: u64 = 0;
             let mut done: u64 = 0;
             let mut bad: Vec<String> = Vec::new();
@@ -131,7 +149,11 @@ pub fn sweep(args: &[String]) {
             let mut ws: Vec<u32> = vec![0; k];
             loop {
                 let wanted = !invalid_only || idx[k - 1] == n - 1 || idx.windows(2).any(|w| w[0] == w[1]);
-                if wanted && c % stride == offset && (c / stride) % threads == t {
+                if ordered {
+                    c = linear(&idx);
+                }
+                let mine = if ordered { c % stride == offset } else { c % stride == offset && (c / stride) % threads == t };
+                if wanted && mine {
                     for (j, i) in idx.iter().enumerate() {
                         ws[j] = alpha[*i];
                     }
@@ -149,6 +171,23 @@ pub fn sweep(args: &[String]) {
                         4 => ws.sort_unstable(),
                         _ => {},
                     }
+                    // fast pre-filter for the cheapest projection (hrkey over 2^32 pairs): an all-true outcome needs no
+                    // line; anything else (a false bit, an unwinding call) goes through `exec` like every other case
+                    if fast_hrkey {
+                        state.2.store(((u64::from(ws[0]) << 16) | u64::from(ws[1])) + 1, Ordering::Relaxed);
+                        state.0.store(done, Ordering::Relaxed);
+                        let bits = catch_unwind(AssertUnwindSafe(|| {
+                            crate::run::hrkey_bits_of(&ranks[ws[0] as usize], &ranks[ws[1] as usize], ws[0] as u16, ws[1] as u16)
+                        }))
+                        .ok();
+                        if bits == Some((true, true, true)) {
+                            done += 1;
+                            if !next_tuple(&mut idx, n, threads as usize) {
+                                break;
+                            }
+                            continue;
+                        }
+                    }
                     line.clear();
                     line.push_str(&op);
                     for w in &ws {
@@ -159,6 +198,7 @@ pub fn sweep(args: &[String]) {
                         cur.clear();
                         cur.push_str(&line);
                     }
+                    state.2.store(0, Ordering::Relaxed);
                     state.0.store(done, Ordering::Relaxed);
                     let r = catch_unwind(AssertUnwindSafe(|| exec(0, &line))).unwrap_or_else(|_| "P".to_string());
                     let want = match &expect_blank {
@@ -175,7 +215,7 @@ pub fn sweep(args: &[String]) {
                 }
                 c += 1;
                 let more = if ordered {
-                    next_tuple(&mut idx, n)
+                    next_tuple(&mut idx, n, threads as usize)
                 } else if multi {
                     next_multi(&mut idx, n)
                 } else {
@@ -206,7 +246,10 @@ pub fn sweep(args: &[String]) {
                         last[i] = now;
                     }
                     if stale[i] >= 20 {
-                        if let Ok(c) = st.1.lock() {
+                        let f = st.2.load(Ordering::Relaxed);
+                        if f != 0 {
+                            println!("HANG hrkey {} {}", (f - 1) >> 16, (f - 1) & 0xFFFF);
+                        } else if let Ok(c) = st.1.lock() {
                             println!("HANG {c}");
                         }
                         std::process::exit(3);
